@@ -498,7 +498,7 @@ fn u61_body(nfiles: usize, max_count: usize) {
 	use std::os::fd::FromRawFd;
 	let log = std::mem::ManuallyDrop::new(mk_log());
 	let (a, b, c): (u32, u32, u32) = (kani::any(), kani::any(), kani::any());
-	kani::assume(a < b && b < c);
+	kani::assume(a != b && b != c && a != c);
 	// enacted log files wait for reclamation, oldest first (descriptors 3, 4, 5 stand for the files)
 	log.cleanup_queue.write().push_back((a, unsafe { std::fs::File::from_raw_fd(3) }));
 	log.cleanup_queue.write().push_back((b, unsafe { std::fs::File::from_raw_fd(4) }));
